@@ -1,7 +1,9 @@
 package walletlab
 
 import (
+	"encoding/hex"
 	"fmt"
+	"regexp"
 	"sort"
 	"strings"
 	"time"
@@ -41,7 +43,19 @@ type Stats struct {
 	Accepted          int
 	Undecided         int
 	KnownDefectHits   int
-	States            map[string]int // wallet-state features present at barriers
+	// lagging-wallet dimension
+	Deliveries          int            // delivery events that applied pending blocks
+	MaxLag              int            // largest number of pending blocks at a funding call
+	FundsByLag          map[string]int // "<op>:lag<k>" successful selecting calls by pending blocks
+	AcquiresLagging     int            // successful selecting calls made while >= 1 block was pending
+	ProofsVerified      int            // inputs whose proof was verified against the returned basis
+	StaleAtTip          int            // calls whose proofs do NOT verify at the manager's tip (a wrong basis would show)
+	SubmitsLagging      int            // submissions of transactions funded while lagging
+	AcceptedLagging     int
+	SplitExplained      map[string]int // SplitUTXO refusals the model explains, by explanation
+	SplitCrossVersion   int            // SplitUTXO errors after picking a pooled v1 output
+	RefusedPendingSpend int            // refusals explained by an input that a pending block had spent
+	States              map[string]int // wallet-state features present at barriers
 }
 
 type outInfo struct {
@@ -66,6 +80,9 @@ type analysis struct {
 	changes  []int // indices of block and restart events, in order
 	inPool   []map[types.TransactionID]bool
 	heightEv map[uint64]int // height -> block event index
+	storeEv  map[uint64]int // height -> event within which the wallet store applied that block
+	lagOf    map[int]int    // handle -> largest lag among its selecting calls
+	legacy   bool           // recording without delivery information
 	minH     uint64
 	tainted  map[int]bool // handles whose funding selected one output twice
 	find     []Finding
@@ -96,8 +113,12 @@ func Analyze(h *History, porcTimeout time.Duration) ([]Finding, Stats) {
 		ptx:      make(map[types.TransactionID]*ptxInfo),
 		spenders: make(map[types.SiacoinOutputID][]types.TransactionID),
 		heightEv: make(map[uint64]int),
+		storeEv:  make(map[uint64]int),
+		lagOf:    make(map[int]int),
 		tainted:  make(map[int]bool),
 	}
+	a.st.FundsByLag = make(map[string]int)
+	a.st.SplitExplained = make(map[string]int)
 	a.st.Ops = make(map[string]int)
 	a.st.States = make(map[string]int)
 	a.index()
@@ -109,12 +130,29 @@ func Analyze(h *History, porcTimeout time.Duration) ([]Finding, Stats) {
 }
 
 func (a *analysis) index() {
+	recorded := false // does the history record deliveries at all (older recordings do not)
+	for i := range a.ev {
+		e := &a.ev[i]
+		if e.To > 0 && (e.Op == OpBlock || e.Op == OpDeliver) {
+			recorded = true
+			for h := e.From; h <= e.To; h++ {
+				a.storeEv[h] = i
+			}
+			if e.Op == OpDeliver {
+				a.st.Deliveries++
+			}
+		}
+	}
 	for i := range a.ev {
 		e := &a.ev[i]
 		switch e.Op {
 		case OpBlock:
 			if !e.OK {
 				continue
+			}
+			if !recorded {
+				a.storeEv[e.Height] = i // block and delivery were one event
+				a.legacy = true
 			}
 			a.st.Blocks++
 			a.changes = append(a.changes, i)
@@ -227,8 +265,232 @@ func (a *analysis) matureBy(m uint64, r int64) bool {
 	if m == 0 || m < a.minH {
 		return true
 	}
-	i, ok := a.heightEv[m]
+	i, ok := a.storeEv[m]
 	return ok && a.ev[i].Call < r
+}
+
+// delivery returns the event within which the wallet store applied the block
+// of block event b (-1: never, or b < 0).
+func (a *analysis) delivery(b int) int {
+	if b < 0 {
+		return -1
+	}
+	if i, ok := a.storeEv[a.ev[b].Height]; ok {
+		return i
+	}
+	return -1
+}
+
+// heightsBefore returns the manager's and the wallet store's height as far as
+// events that had returned before sequence number c establish them.
+func (a *analysis) heightsBefore(c int64) (cm, store uint64) {
+	for i := range a.ev {
+		e := &a.ev[i]
+		if e.Ret >= c {
+			continue
+		}
+		if e.Op == OpBlock && e.OK && e.Height > cm {
+			cm = e.Height
+		}
+		if (e.Op == OpBlock || e.Op == OpDeliver) && e.To > store {
+			store = e.To
+		}
+	}
+	if a.legacy {
+		store = cm // every block was delivered within its own event
+	}
+	return
+}
+
+// overlapsChange reports whether a block or restart (and, with deliveries, a
+// delivery of blocks to the wallet store) overlaps [c, r].
+func (a *analysis) overlapsChange(c, r int64, deliveries bool) bool {
+	for i := range a.ev {
+		e := &a.ev[i]
+		if e.Op == OpBlock || e.Op == OpRestart || (deliveries && e.Op == OpDeliver) {
+			if e.Call < r && e.Ret > c {
+				return true
+			}
+		}
+	}
+	return false
+}
+
+// spentInPendingBlock reports whether output id had been spent by a block the
+// manager connected before sequence number by, of which the wallet store had
+// not been told before sequence number c (the call that selected it began).
+func (a *analysis) spentInPendingBlock(id types.SiacoinOutputID, c, by int64) bool {
+	o := a.outs[id]
+	if o == nil || o.spentEv < 0 || a.ev[o.spentEv].Call >= by {
+		return false
+	}
+	d := a.delivery(o.spentEv)
+	return d < 0 || a.ev[d].Ret > c
+}
+
+// pendingSpendAt reports whether at sequence number c some output of the
+// wallet was spent on chain without the wallet store knowing.
+func (a *analysis) pendingSpendAt(c int64) bool {
+	for id, o := range a.outs {
+		if o.known && o.Addr == a.h.Addr && a.spentInPendingBlock(id, c, c) {
+			return true
+		}
+	}
+	return false
+}
+
+// explainSplitRefusal models, for the SplitUTXO call at event index i that the
+// chain manager refused, which output the call picked as "largest" and returns
+// the model's explanation of the refusal, or "" if it has none:
+//
+//   - "unconfirmed-output-picked-while-lagging": the wallet store lagged the
+//     manager and the largest candidate was an unconfirmed output of a pooled
+//     transaction. Manager.V2TransactionSet then validates the pooled parents
+//     (proofs current at the manager's tip) against the transaction's basis
+//     (the store's older tip): a chain manager limitation; SplitUTXO returned
+//     an error and reserved nothing.
+//   - "input-spent-in-pending-block": the picked output had been spent by a
+//     block the wallet store had not been told about (its reservation gone
+//     through a restart or release); the set is built for the store's tip and
+//     refused at the manager's.
+//   - "undecided-concurrent": other recorded calls or chain changes overlap the
+//     split, so reservations and pool cannot be folded sequentially, and one of
+//     the two situations above may have applied.
+//
+// A refusal at the V2TransactionSet stage ("failed to create split transaction
+// set") is validated against the index SplitUTXO itself passes; a pending spend
+// cannot explain it (at the store's tip the output is unspent and its proof
+// valid), so handing the manager any other index than the store's shows here.
+func (a *analysis) explainSplitRefusal(i int) string {
+	e := &a.ev[i]
+	c := e.Call
+	createStage := strings.Contains(e.Err, "failed to create split transaction set")
+	cmH, stH := a.heightsBefore(c)
+	lagging := cmH > stH
+	held := make(map[int]map[types.SiacoinOutputID]bool)
+	for j := range a.ev {
+		f := &a.ev[j]
+		if j == i || f.Op == OpBarrier {
+			continue
+		}
+		if f.Call < e.Ret && f.Ret > c {
+			// concurrent: be conservative
+			if a.pendingSpendAt(e.Ret) && !createStage {
+				return "undecided-concurrent"
+			}
+			for _, o := range a.outs {
+				if !o.known || o.Addr != a.h.Addr {
+					continue
+				}
+				if cd := a.delivery(o.createdEv); cd >= 0 && a.ev[cd].Ret < c {
+					continue
+				}
+				for _, t := range o.creators {
+					if a.possiblyPooled(t, c, e.Ret) {
+						return "undecided-concurrent"
+					}
+				}
+			}
+			return ""
+		}
+		if f.Ret >= c {
+			continue
+		}
+		switch {
+		case f.Op == OpRestart, f.Op == OpSleep && f.Probe == "expired":
+			held = make(map[int]map[types.SiacoinOutputID]bool)
+		case f.Op == OpRelease:
+			delete(held, f.H)
+		case f.IsAcquire():
+			m := held[f.H]
+			if m == nil {
+				m = make(map[types.SiacoinOutputID]bool)
+				held[f.H] = m
+			}
+			for _, sel := range f.Sel {
+				for _, x := range sel {
+					m[x.ID] = true
+				}
+			}
+		}
+	}
+	isHeld := func(id types.SiacoinOutputID) bool {
+		for _, m := range held {
+			if m[id] {
+				return true
+			}
+		}
+		return false
+	}
+	poolSpent := func(id types.SiacoinOutputID) bool {
+		for _, t := range a.spenders[id] {
+			if a.surelyPooled(t, c, c) {
+				return true
+			}
+		}
+		return false
+	}
+	var confirmedMax, unconfirmedMax types.Currency
+	var picked types.SiacoinOutputID
+	for id, o := range a.outs {
+		if !o.known || o.Addr != a.h.Addr || o.Value.Cmp(e.Fee) < 0 || isHeld(id) || poolSpent(id) {
+			continue
+		}
+		cd, sd := a.delivery(o.createdEv), a.delivery(o.spentEv)
+		if cd >= 0 && a.ev[cd].Ret < c {
+			// in the wallet store
+			if (sd >= 0 && a.ev[sd].Ret < c) || o.Maturity > stH {
+				continue
+			}
+			if o.Value.Cmp(confirmedMax) > 0 {
+				confirmedMax, picked = o.Value, id
+			}
+			continue
+		}
+		for _, t := range o.creators {
+			if a.surelyPooled(t, c, c) && o.Value.Cmp(unconfirmedMax) > 0 {
+				unconfirmedMax = o.Value
+			}
+		}
+	}
+	switch {
+	case unconfirmedMax.Cmp(confirmedMax) > 0:
+		if lagging {
+			return "unconfirmed-output-picked-while-lagging"
+		}
+	case !createStage && !confirmedMax.IsZero():
+		// several outputs may share the largest value; any of them spent in
+		// a pending block explains the refusal
+		for id, o := range a.outs {
+			if o.known && o.Addr == a.h.Addr && o.Value.Equals(confirmedMax) && a.spentInPendingBlock(id, c, c) {
+				return "input-spent-in-pending-block"
+			}
+		}
+		_ = picked
+	}
+	return ""
+}
+
+var ephemeralRe = regexp.MustCompile(`claims unknown ephemeral output ([0-9a-f]{64})`)
+
+// crossVersionEphemeral reports whether a refusal names an ephemeral output
+// that a pooled v1 transaction created.
+func (a *analysis) crossVersionEphemeral(msg string) bool {
+	m := ephemeralRe.FindStringSubmatch(msg)
+	if m == nil {
+		return false
+	}
+	for id, o := range a.outs {
+		if hex.EncodeToString(id[:]) != m[1] {
+			continue
+		}
+		for _, c := range o.creators {
+			if p := a.ptx[c]; p != nil && !p.V2 {
+				return true
+			}
+		}
+	}
+	return false
 }
 
 // eligibility decides one selected input of a successful call spanning [c, r].
@@ -246,9 +508,12 @@ func (a *analysis) eligibility(e *Event, s Sel) (reason string) {
 			return "pool-spent"
 		}
 	}
-	confirmed := o.createdEv >= 0 && a.ev[o.createdEv].Call < r
+	// what the wallet may select is judged by what its store has been told:
+	// a block counts from the event that delivered it to the store
+	cd, sd := a.delivery(o.createdEv), a.delivery(o.spentEv)
+	confirmed := cd >= 0 && a.ev[cd].Call < r
 	if confirmed {
-		if o.spentEv >= 0 && a.ev[o.spentEv].Ret < c {
+		if sd >= 0 && a.ev[sd].Ret < c {
 			return "spent-on-chain"
 		}
 		if a.matureBy(o.Maturity, r) {
@@ -267,7 +532,7 @@ func (a *analysis) eligibility(e *Event, s Sel) (reason string) {
 	if !(e.Unconf || e.Op == OpSplit) {
 		// the creating transaction may have been confirmed by a block that
 		// overlaps the call
-		if o.createdEv >= 0 && a.ev[o.createdEv].Call < r {
+		if cd >= 0 && a.ev[cd].Call < r {
 			return ""
 		}
 		return "unconfirmed-not-requested"
@@ -310,6 +575,10 @@ func (a *analysis) checkCalls() {
 			continue
 		}
 		for _, s := range e.Struct {
+			if strings.HasPrefix(s, "input proof does not verify") || strings.HasPrefix(s, "returned basis is not") {
+				a.report("returned-basis:"+e.Op, s+" (the basis a funding call returns must be the index its input proofs are valid for, also while the wallet's index lags the chain manager)", map[string]any{"event": e})
+				continue
+			}
 			a.report("structure:"+e.Op+":"+strings.ReplaceAll(s, " ", "-"), s, map[string]any{"event": e})
 		}
 		if !e.IsFundKind() {
@@ -317,6 +586,22 @@ func (a *analysis) checkCalls() {
 		}
 		if !e.OK {
 			a.st.FailedCalls++
+			if e.Op == OpSplit && a.h.Regime != RegimeV1 && (strings.Contains(e.Err, "failed to create split transaction set") || strings.Contains(e.Err, "failed to broadcast split transaction")) {
+				// SplitUTXO built and signed a transaction and the manager
+				// refused it. Legitimate only when the state moved under the
+				// call or when the input had been spent by a block the wallet
+				// store has not been told about.
+				if a.crossVersionEphemeral(e.Err) {
+					// SplitUTXO picked an unconfirmed output of a pooled v1
+					// transaction (hardfork window only); it returned an error
+					// and reserved nothing, which the statement allows
+					a.st.SplitCrossVersion++
+				} else if why := a.explainSplitRefusal(i); why != "" {
+					a.st.SplitExplained[why]++
+				} else {
+					a.report("acceptance:"+OpSplit, "SplitUTXO's own transaction was refused by the chain manager", map[string]any{"event": e})
+				}
+			}
 			continue
 		}
 		if len(e.Sel) == 0 {
@@ -328,6 +613,29 @@ func (a *analysis) checkCalls() {
 			continue
 		}
 		a.st.Selections++
+		cmH, stH := a.heightsBefore(e.Call)
+		lag := 0
+		if cmH > stH {
+			lag = int(cmH - stH)
+		}
+		if lag > 0 {
+			a.st.AcquiresLagging++
+			if lag > a.st.MaxLag {
+				a.st.MaxLag = lag
+			}
+			if lag > a.lagOf[e.H] {
+				a.lagOf[e.H] = lag
+			}
+			k := lag
+			if k > 8 {
+				k = 8
+			}
+			a.st.FundsByLag[fmt.Sprintf("%s:lag%d", e.Op, k)]++
+		}
+		a.st.ProofsVerified += e.Proofs
+		if e.StaleAtTip {
+			a.st.StaleAtTip++
+		}
 		seen := make(map[types.SiacoinOutputID]bool)
 		outputsTotal := 0
 		dup := false
@@ -799,6 +1107,12 @@ func (a *analysis) checkAcceptance() {
 			continue
 		}
 		a.st.Submits++
+		if a.lagOf[e.H] > 0 {
+			a.st.SubmitsLagging++
+			if e.OK {
+				a.st.AcceptedLagging++
+			}
+		}
 		if e.OK {
 			a.st.Accepted++
 			continue
@@ -820,15 +1134,35 @@ func (a *analysis) checkAcceptance() {
 			if f.H != e.H || !f.IsAcquire() {
 				continue
 			}
-			for _, k := range a.changes {
-				c := &a.ev[k]
-				if c.Call < f.Ret && c.Ret > f.Call {
-					overlap = true
-				}
+			if a.overlapsChange(f.Call, f.Ret, true) {
+				overlap = true
 			}
 		}
 		if overlap {
 			a.st.Undecided++
+			continue
+		}
+		// The wallet's index may lag the manager: an input that a pending
+		// block (connected to the manager, not yet delivered to the wallet
+		// store when the selecting call began) had spent explains a refusal.
+		// Nothing else about a lagging wallet does: the returned basis is the
+		// index the proofs are valid for, and the pool updates them from there.
+		explained := false
+		for j := range a.ev {
+			f := &a.ev[j]
+			if f.H != e.H || !f.IsAcquire() {
+				continue
+			}
+			for _, sel := range f.Sel {
+				for _, x := range sel {
+					if a.spentInPendingBlock(x.ID, f.Call, e.Ret) {
+						explained = true
+					}
+				}
+			}
+		}
+		if explained {
+			a.st.RefusedPendingSpend++
 			continue
 		}
 		if a.tainted[e.H] {
